@@ -33,6 +33,11 @@ def gen_cases(rng, tier):
             typ = "mixed"
         k = rng.choice([2, 3, 10])
         pad = [gens.outcome(rng, 0.0) for _ in range(rng.randint(1, 2))]
+        if rng.random() < 0.12:
+            # the same shape far from the origin (means of millions, not whole numbers)
+            shift = rng.choice([3_000_000, 10 ** 7, -2_500_000, 2 ** 21 + 1])
+            h = [[gens.q(Fraction(*o) + shift), c] for o, c in h]
+            typ = "int" if typ == "bool" else typ
         cases.append({"kind": "stats", "h": h, "typ": typ, "scale": k, "pad": pad, "form": rng.choice(["map", "map", "pairs", "mixed"]),
                       "other": gens.hist(rng, max_faces=4, style="pos", frac_p=0.0)})
     return cases
@@ -136,16 +141,19 @@ def impl_run(case):
         hs = H({o: c * case["scale"] for o, c in h.items()})
         hp = h.zero_fill([gens.py_outcome(o) for o in case["pad"]])
 
+        # float variances are computed as E[X^2] - mu^2: their absolute error grows with mu^2 (cancellation)
+        vtol = (float(m) ** 2 + 1) * 2.0 ** -36
+
         def same(a, b):
             if isinstance(a, float) or isinstance(b, float):
-                return math.isclose(float(a), float(b), rel_tol=1e-9, abs_tol=1e-9)
+                return math.isclose(float(a), float(b), rel_tol=1e-9, abs_tol=max(1e-9, vtol))
             return a == b
         out["scale_ok"] = same(hs.mean(), m) and same(hs.variance(), v)
         out["pad_ok"] = same(hp.mean(), m) and same(hp.variance(), v)
         o2 = H(gens.py_hist_dict(case["other"]))
         if h.total > 0 and o2.total > 0:
             s = h + o2
-            out["add_ok"] = same(s.mean(), m + o2.mean()) and math.isclose(float(s.variance()), float(v) + float(o2.variance()), rel_tol=1e-7, abs_tol=1e-7)
+            out["add_ok"] = same(s.mean(), m + o2.mean()) and math.isclose(float(s.variance()), float(v) + float(o2.variance()), rel_tol=1e-7, abs_tol=max(1e-7, 4 * vtol))
         else:
             out["add_ok"] = True
     except OverflowError:
